@@ -34,13 +34,16 @@ def _run_one(m, base):
     d = tempfile.mkdtemp(prefix="isoqlint_mut_", dir=base)
     try:
         _copy_tree(d)
+        if m.get("generated") == "rename-locals":
+            from . import rename_locals
+            rename_locals.rename_tree(d, d)
         if m.get("patch"):
             r = subprocess.run(["git", "apply", "--unsafe-paths", "--directory=" + d, m["patch"]], cwd=d, capture_output=True, text=True)
             if r.returncode != 0:
                 r = subprocess.run(["patch", "-p1", "-s", "-i", m["patch"]], cwd=d, capture_output=True, text=True)
                 if r.returncode != 0:
                     return m, "stale", "seeded patch no longer applies: " + (r.stdout + r.stderr)[-200:]
-        edits = [] if m.get("patch") else (m.get("edits") or [(m["file"], m["find"], m["replace"])])
+        edits = [] if (m.get("patch") or m.get("generated")) else (m.get("edits") or [(m["file"], m["find"], m["replace"])])
         for rel, find, repl in edits:
             p = os.path.join(d, rel)
             with open(p) as fh:
@@ -116,6 +119,9 @@ def seeded_mutants(prop):
 
 def run_for(prop, ctx, jobs=16):
     ms = [m for m in MUTANTS if m["prop"] == prop] + seeded_mutants(prop)
+    ms.append(dict(id="generated-rename-all-locals", prop=prop, expect="silent", rule=None, generated="rename-locals",
+                   note="every local variable of every function renamed", patch=None, file=None, find=None, replace=None,
+                   mentions=None, edits=None))
     if not ms:
         ctx.note("self-validation: no mutants registered for %s" % prop)
         return
